@@ -48,6 +48,57 @@ CHECKS["C09"] = ("Proof: C09.accepted / refused / accepted_iff / missing_source 
                  "otherwise status 1, diagnostic, no write at all. Tie: frontier stream with the overflow in every block kind, "
                  "single-file lengths across the frontier, missing sources at every index, pre-existing target.", T, "7 C09")
 
+D = "Lean 4 theorems (first layer) + model/code correspondence (differential, real tools vs compiled model) + independent-decoder oracle"
+CHECKS["C02"] = ("Proof so far: the catalog size law (blocks, sectors of the last block, bytes of the last sector decode to exactly n for every "
+                 "n), the chain written by writeFile is read back block for block by walk, announced block count = chain length. The full "
+                 "write/read theorem over sector contents is not yet proved (stated in DESIGN.md). Tie/oracle: create -> list -> extract of "
+                 "both real tools vs the compiled model (status, stdout, image bytes, extracted files) and vs the sources, sizes 0 .. beyond a side.", D, "7 C02")
+CHECKS["C04"] = ("Proof so far: geometry of save for both flavours and FF padding of .sd slots, kind/flag dispatch table = documented table, "
+                 "32-byte entry layout for every name length, status validity = layout's, initFileSystem keeps geometry, a freshly created side "
+                 "is accepted by the independent checker Spec.Dos.fsck (kernel evaluation). Tie/oracle: created images vs model, decoded by two "
+                 "independent readers (Lean Spec.Dos and a Python twin) that must agree with each other and with the sources.", D, "7 C04")
+CHECKS["C05"] = ("Proof so far: free+used+reserved = 160 for every readable table, chosen blocks are free hence never reserved (40/41 included), "
+                 "refusal for lack of blocks leaves the side untouched and happens exactly when free blocks are too few, the linked chain reads "
+                 "back. Invariant preservation over histories is checked, not yet proved. Tie/oracle: histories of create/add with refusals at "
+                 "every position (all histories of depth <= 2/3 over 9 step kinds), each step vs model + independent fsck + full read-back.", D, "7 C05")
+CHECKS["C06"] = ("Proof so far: a sector write touches one sector, the table setter rewrites bytes 1..160 of its sector only, statuses outside "
+                 "the new chain are kept, data sectors of a block are flat 8b..8b+7 and table/catalog lie in blocks 40/41, adding nothing saves "
+                 "the loaded sides and (fd) rewrites the image byte for byte. Tie/oracle: pre-images from tool histories, an independent writer "
+                 "and the bundled real image, then arbitrary batches; byte-level frame check.", D, "7 C06")
+CHECKS["C07"] = ("Proof so far: for any table in which a duplicate-free chain below 160 is linked (any allocation order) the reader follows "
+                 "exactly that chain; linking a disjoint chain keeps other chains; size formula; load accepts 1/2/4-sided fd and 4-sided sd with "
+                 "that many sides and rejects 3. Sector-level read theorem not yet proved. Tie/oracle: images from an independent writer (Python "
+                 "twin = Lean Spec.Dos.render) through real list/extract vs model vs abstract files.", D, "7 C07")
+CHECKS["C10"] = ("Proof so far: storing a file and processing a batch never move the cursor back, keep the number of sides and never touch a "
+                 "side the cursor has left; whenever the batch completes exactly one archive write happens. Tie/oracle: interleavings of files "
+                 "and --eos on fresh / partially filled images; report sections and decoded image vs an independent replay of the placement rule.", D, "7 C10")
+CHECKS["C11"] = ("Proof: the payload setter never changes the sector length and overwrites exactly min(|v|,256) bytes (any length); save length "
+                 "= sides x 1280 x sector size; .sd = .fd payloads with FF interleaved; both tools compute the same sides; load then save is the "
+                 "identity for 1/2/4-sided .fd. Tie/oracle: same sources through both tools, no-op adds over tool-made / independent / bundled "
+                 "images, DiskSector.dataOfPayload for every length 0..600 (exhaustive).", D, "7 C11")
+CHECKS["C12"] = ("Proof so far: tape create/list lines carry the true size, data-block count and leader ordinal; disk plural rule, per-file "
+                 "counter steps, per-side reset, announced blocks = chain blocks, listed size = content length. Tie/oracle: reports of "
+                 "create/add/list/extract x quiet/verbose parsed into facts and compared with the independent decoding of the archive.", D, "7 C12")
+CHECKS["C13"] = ("Proof: tool's token table = pinned MO5 table, codes >= 0x80 / FFxx, injective, keywords distinct; every keyword typed alone "
+                 "(upper or lower case) yields its token, ELSE with colon (finite, whole table, kernel evaluation of the model); file = FF, "
+                 "length, records, zero link; one record per line iff every line is numbered. The general delimited-line theorem is checked, not "
+                 "yet proved. Tie/oracle: vocabulary listings through real moto_lst2bas vs model, Lean structure decoder, Lean reference encoder.", D, "7 C13")
+CHECKS["C14"] = ("Proof so far: placeholder structural facts; the invariant proof of losslessness is in progress (DESIGN.md). Tie/oracle: "
+                 "arbitrary printable listings, all adjacent keyword pairs (thorough) / a seventh of them (quick), all strings <= 4/5 over 9 "
+                 "symbols, through the real tool vs model, decoded by the Lean detokenizer and compared with the source.", D, "7 C14")
+CHECKS["C18"] = ("Proof (PARTIAL by nature): tape reader visits at most len/7 blocks for every byte string; the chain walk returns a "
+                 "duplicate-free chain of at most 161 entries for every table; catalog scan is 112 slots; every path written by tape and disk "
+                 "extract is destination(/sideN)/name with no '/' or NUL. CPU time and memory are observed, not proved: real list/extract on "
+                 "mutated archives in subprocesses under RLIMIT_CPU/AS with an audit hook on every open/mkdir, plus model comparison.", D, "7 C18")
+CHECKS["C19"] = ("Proof (PARTIAL by nature): over the regenerated CLI description — all documented packages and declared scripts resolve, no "
+                 "abbreviations, required exclusive action groups with the documented actions; tape extract writes under --into else beside the "
+                 "archive, list writes nothing. Interpreter start-up/argparse are outside the model: the finite configuration space of the "
+                 "property is enumerated exhaustively at process level with tree diffs. Known finding K1 (create --into) is reported, not hidden.", D, "7 C19")
+CHECKS["C20"] = ("Proof: tape create is a function of the sources' contents only (mode, archive name, rest of the file system irrelevant); "
+                 "list writes nothing, extract only under the destination; the disk injector's image and cursor do not depend on the listener "
+                 "nor on the world beyond the sources. Tie/oracle: paired real runs (twice, quiet/verbose, relative/absolute/dotted paths, "
+                 "old target) must be byte-identical; archives and sources hashed and mtime-checked around reads.", D, "7 C20")
+
 PENDING = {}
 
 
